@@ -335,12 +335,18 @@ func sameStrings(a, b []string) bool {
 // c19Targets: decoration lists of different node types and points, among them the End points the
 // restorer hands to go/printer through a node's Comment field (Field, ImportSpec, ValueSpec, TypeSpec).
 // The source holds one other comment, so that go/printer works from the file's comment list.
-const c19Src = "package p\n\nimport \"fmt\"\n\n// fixed\nvar v = fmt.Sprint()\n\ntype t struct {\n\ta int\n}\n\ntype u int\n\nfunc f(a int) {\n\tx()\n\tif a > 0 {\n\t\ty()\n\t}\n}\n\nvar c1 chan int\n\nvar c2 <-chan int\n\nvar c3 chan<- int\n\nvar m map[int]int\n\nvar s = a[1:2]\n\nvar e = [...]int{1}\n"
+const c19Src = "package p\n\nimport \"fmt\"\n\n// fixed\nvar v = fmt.Sprint()\n\ntype t struct {\n\ta int\n}\n\ntype u int\n\nfunc f(a int) {\n\tx()\n\tif a > 0 {\n\t\ty()\n\t}\n}\n\nvar c1 chan int\n\nvar c2 <-chan int\n\nvar c3 chan<- int\n\nvar m map[int]int\n\nvar s = a[1:2]\n\nvar e = [...]int{1}\n\nvar g = Pair[int, string]{}\n"
 
 var c19Targets = []struct {
 	Name string
 	Get  func(f *dst.File) *dst.Decorations
 }{
+	{"IndexListExpr.Lbrack", func(f *dst.File) *dst.Decorations {
+		return &f.Decls[11].(*dst.GenDecl).Specs[0].(*dst.ValueSpec).Values[0].(*dst.CompositeLit).Type.(*dst.IndexListExpr).Decs.Lbrack
+	}},
+	{"IndexListExpr.Indices", func(f *dst.File) *dst.Decorations {
+		return &f.Decls[11].(*dst.GenDecl).Specs[0].(*dst.ValueSpec).Values[0].(*dst.CompositeLit).Type.(*dst.IndexListExpr).Decs.Indices
+	}},
 	{"ExprStmt.Start", func(f *dst.File) *dst.Decorations {
 		return &f.Decls[4].(*dst.FuncDecl).Body.List[0].(*dst.ExprStmt).Decs.Start
 	}},
